@@ -2,14 +2,14 @@ SPECIFICATION Spec
 CONSTANTS
   TMin = 0
   TMax = 15
-  Pts <- PtsU4
-  MaxLen = 2
+  Pts <- PtsU4t
+  MaxLen = 3
   FixTrunc = TRUE
   FixGuard = TRUE
   FixOct0 = TRUE
   FixSkip = FALSE
   FixUncl = TRUE
   Emit = FALSE
-  WithBad = TRUE
+  WithBad = FALSE
 INVARIANT ImplEqualsClaims
 CHECK_DEADLOCK FALSE
